@@ -357,8 +357,10 @@ def onReq (c : Cfg) (s : St) (p : ObjId) (r : Req) : St × List Out :=
         p 200 (Body.status 0)
     else respond s p 401 Body.none
   | .snapshot =>
-    -- handle_resource is not guarded by is_encrypted (C03's business, not ours)
-    ({ s with obj := upd s.obj p { s.obj p with pending := true } }, [])
+    -- handle_resource: UnprivilegedRequestException → 401 {"status": -70401} unless verified;
+    -- otherwise the response is delayed until the snapshot task finishes
+    if (s.obj p).verified then ({ s with obj := upd s.obj p { s.obj p with pending := true } }, [])
+    else respond s p 401 (Body.status (-70401))
 
 /-- `data_received` with one complete request, on a connection whose transport is open. -/
 def onData (c : Cfg) (s : St) (p : ObjId) (r : Req) : St × List Out := onReq c (touch s p) p r
